@@ -2,4 +2,4 @@ import servercheck
 
 
 def run(tier):
-    return servercheck.run("C26", tier, "names", "files", 6, 48, 100)
+    return servercheck.run("C26", tier, "names", "files", 12, 72, 120)
